@@ -27,9 +27,9 @@ EXPLANATION = (
     "count) checks that cursors are only compared/assigned within their "
     "dimension and that every lexicographic cursor comparison decides on the lap "
     "count first. R-REGISTER: a reader is registered under the lock at the "
-    "writer's current lap. The ring arithmetic (exact byte sequence across "
-    "wraps for all sizes) is an inductive invariant over unbounded integers and "
-    "is not decided.")
+    "writer's current lap. The exact byte sequence over whole histories of "
+    "calls (an induction over call sequences) is not decided; the per-call "
+    "arithmetic is (R-LIN, below).")
 EXPLANATION += (' R-LIN (linear-relations abstract interpretation of channel.c, Fourier-Motzkin entailment): cursor stores stay in [0, capacity] (inductive), non-empty slices are exactly [hold, head) or [hold, high) with the reader cursor recording end and lap, the overflow error only for an overrun reader, next-lap moves only at high, releases move the hold cursor by exactly the consumed bytes, registration/map/unmap address one valid slot, the mapped/unmapped state follows map/unmap, cursor_cmp is lexicographic, reader_min is the running minimum over all readers. R-CURSOR-COPY: lap and position are copied together.')
 
 
